@@ -57,61 +57,67 @@ func setupLimits(c *casket.Controller) error {
 func parseLimits(c *casket.Controller) ([]httpserver.PathLimit, error) {
 	config := httpserver.GetConfig(c)
 
-	if !c.Next() {
-		return nil, c.ArgErr()
-	}
-
-	args := c.RemainingArgs()
 	argList := []pathLimitUnparsed{}
 	headerLimit := ""
 
-	switch len(args) {
-	case 0:
-		// Format: limits {
-		//	header <limit>
-		//	body <path> <limit>
-		//	body <limit>
-		//	...
-		// }
-		for c.NextBlock() {
-			kind := c.Val()
-			pathOrLimit := c.RemainingArgs()
-			switch kind {
-			case "header":
-				if len(pathOrLimit) != 1 {
+	// the directive may be written more than once in a site:
+	// every occurrence counts (for one path, the last value)
+	seen := false
+	for c.Next() {
+		seen = true
+		args := c.RemainingArgs()
+
+		switch len(args) {
+		case 0:
+			// Format: limits {
+			//	header <limit>
+			//	body <path> <limit>
+			//	body <limit>
+			//	...
+			// }
+			for c.NextBlock() {
+				kind := c.Val()
+				pathOrLimit := c.RemainingArgs()
+				switch kind {
+				case "header":
+					if len(pathOrLimit) != 1 {
+						return nil, c.ArgErr()
+					}
+					headerLimit = pathOrLimit[0]
+				case "body":
+					if len(pathOrLimit) == 1 {
+						argList = append(argList, pathLimitUnparsed{
+							Path:  "/",
+							Limit: pathOrLimit[0],
+						})
+						break
+					}
+
+					if len(pathOrLimit) == 2 {
+						argList = append(argList, pathLimitUnparsed{
+							Path:  pathOrLimit[0],
+							Limit: pathOrLimit[1],
+						})
+						break
+					}
+
+					fallthrough
+				default:
 					return nil, c.ArgErr()
 				}
-				headerLimit = pathOrLimit[0]
-			case "body":
-				if len(pathOrLimit) == 1 {
-					argList = append(argList, pathLimitUnparsed{
-						Path:  "/",
-						Limit: pathOrLimit[0],
-					})
-					break
-				}
-
-				if len(pathOrLimit) == 2 {
-					argList = append(argList, pathLimitUnparsed{
-						Path:  pathOrLimit[0],
-						Limit: pathOrLimit[1],
-					})
-					break
-				}
-
-				fallthrough
-			default:
-				return nil, c.ArgErr()
 			}
+		case 1:
+			// Format: limits <limit>
+			headerLimit = args[0]
+			argList = append(argList, pathLimitUnparsed{
+				Path:  "/",
+				Limit: args[0],
+			})
+		default:
+			return nil, c.ArgErr()
 		}
-	case 1:
-		// Format: limits <limit>
-		headerLimit = args[0]
-		argList = []pathLimitUnparsed{{
-			Path:  "/",
-			Limit: args[0],
-		}}
-	default:
+	}
+	if !seen {
 		return nil, c.ArgErr()
 	}
 
